@@ -191,7 +191,7 @@ fn explored_case(case: &mut Case, knobs: &SysKnobs) {
                     let hs = ch.handles();
                     Box::new(move || {
                         let _ = &hs;
-                        (ch.unique_state_count(), hs.iter().all(|h| h.is_finished()))
+                        { let done = hs.iter().all(|h| h.is_finished()); (ch.unique_state_count(), done) }
                     })
                 }
                 _ => {
@@ -199,7 +199,7 @@ fn explored_case(case: &mut Case, knobs: &SysKnobs) {
                     let hs = ch.handles();
                     Box::new(move || {
                         let _ = &hs;
-                        (ch.unique_state_count(), hs.iter().all(|h| h.is_finished()))
+                        { let done = hs.iter().all(|h| h.is_finished()); (ch.unique_state_count(), done) }
                     })
                 }
             };
